@@ -118,6 +118,8 @@ T4 = ['LD IX,{w}', 'LD ({w}),BC', 'LD DE,({w})', 'LD (IX{d}),{n}', 'BIT {b},(IX{
 BY_SIZE = {1: T1, 2: T2, 3: T3, 4: T4}
 INS_LABELS = True
 STR_CHARS = 'abcXYZ 019,;:#$%+-*/()'
+# strings whose bytes a careless case conversion (or the -u fix-up of IXH/IXL/IYH/IYL) would change
+STR_WORDS = ['IXH', 'IYL', 'ixh', 'iyl', 'IXl', 'IYh', 'Hello', 'ld a,IXH', 'DEFB', "af'", 'Ix', 'LD (IY+1),IXL', 'hL', '$ff', '$FF']
 
 
 class G:
@@ -140,6 +142,9 @@ class G:
         self.has_addressless = False  # address-less lines are never assembled into the parser snapshot
         self.has_data = False       # @defb/@defs/@defw directives (snapshot only; skool2bin needs -d)
         self.bytes_addrs = set()    # addresses whose bytes come from @bytes (the ASM text assembles differently by design)
+        self.data_addrs = set()     # addresses written by @defb/@defs/@defw directives (probed with #PEEK)
+        self.short_labels = ['Q', 'K', 'V', 'W', 'Y', 'G', 'J', 'N']
+        rng.shuffle(self.short_labels)
 
     # -- structure -------------------------------------------------------------------------
     def tmpl(self, size=None, rel_ok=True):
@@ -148,6 +153,10 @@ class G:
             size = rng.choice((1, 1, 2, 2, 2, 3, 3, 3, 4))
         if size == 2 and rel_ok and rng.random() < 0.2:
             return rng.choice(T2R), 2
+        if size in BY_SIZE and rng.random() < 0.04:
+            # a string statement (also as the operation of an @*sub/@*fix directive): ':' and ',' inside the
+            # quotes must not be taken for the label / operand separators
+            return 'DEFM "%s"' % ''.join(rng.choice('ab:,X h') for _ in range(size)), size
         if size in BY_SIZE:
             return rng.choice(BY_SIZE[size]), size
         return 'DEFS %d,{n}' % size, size
@@ -160,7 +169,9 @@ class G:
             return 'DEFB ' + ','.join('{n}' for _ in range(n)), n
         if k == 1:
             s = ''.join(rng.choice(STR_CHARS) for _ in range(rng.randrange(1, 7)))
-            return 'DEFM "%s"' % s, len(s)
+            if rng.random() < 0.4:
+                s = rng.choice(STR_WORDS)
+            return rng.choice(('DEFM "%s"', 'DEFM "%s"', 'DEFB "%s"', 'defm "%s"')) % s, len(s)
         if k == 2:
             n = rng.randrange(1, 4)
             return 'DEFW ' + ','.join('{a}' for _ in range(n)), 2 * n
@@ -172,10 +183,14 @@ class G:
             esc = s.replace('\\', '\\\\').replace('"', '\\"')
             return 'DEFB {n},"%s",{n}' % esc, len(s) + 2
         s = ''.join(rng.choice(STR_CHARS) for _ in range(rng.randrange(1, 4)))
+        if rng.random() < 0.4:
+            s = rng.choice(STR_WORDS)
         return 'DEFM "%s",{n}' % s, len(s) + 1
 
     def new_label(self):
         self.nlabels += 1
+        if self.short_labels and self.rng.random() < 0.15:
+            return self.short_labels.pop()      # one-letter label (not a register / condition name)
         return self.rng.choice(('LAB', 'Start', 'loop_', 'DATA', 'x')) + str(self.nlabels)
 
     def build(self):
@@ -232,7 +247,8 @@ class G:
         extras = []
         if rng.random() < 0.35:
             lab = self.new_label()
-            pre.append('label=' + lab)
+            # `@label=*NAME` also marks the instruction as an entry point (not on the first line of an entry)
+            pre.append('label=' + ('*' if ins['ctl'] == ' ' and rng.random() < 0.15 else '') + lab)
             self.labelled[addr] = lab
         elif rng.random() < 0.05:
             pre.append('label=')
@@ -248,6 +264,8 @@ class G:
                 far = 60000 if self.base < 50000 else 20000
                 pre.append(rng.choice(('defb=%d:1,$02,"a"' % (far + rng.randrange(50)), 'defs=%d:3,$AA' % (far + 60 + rng.randrange(50)),
                                        'defw=%d:$1234,5 ; comment' % (far + 120 + rng.randrange(50)), 'defb=%d:%%1010' % (far + 200))))
+                da = int(re.match(r'def[bsw]=(\d+):', pre[-1]).group(1))
+                self.data_addrs.update((da, da + 2))
             if not self.allow_move and ins['t'] in ('NEG', 'IM 1', 'NOP') and rng.random() < 0.5:
                 alt = {'NEG': '237,76', 'IM 1': '$ED,$76', 'NOP': '0'}[ins['t']]
                 pre.append('bytes=' + alt)
@@ -472,7 +490,8 @@ class G:
                 a = self.target()
                 r = rng.random()
                 if r < 0.12:
-                    return self.num16(a) + rng.choice(('+', '-')) + str(rng.randrange(1, 4))
+                    # (the value stays inside 0..65535: an overflowing operand is rejected by every assembler)
+                    return self.num16(a) + ('-' if a > 65500 else '+' if a < 4 else rng.choice(('+', '-'))) + str(rng.randrange(1, 4))
                 if r < 0.15 and k == 'w':
                     return str(rng.randrange(1, 200)) + '*' + str(rng.randrange(1, 200))
                 return self.num16(a)
@@ -519,7 +538,7 @@ class G:
                 pk = ''
                 if v == 0:
                     addrs = [rng.randrange(self.base, max(self.base + 1, self.end)) for _ in range(6)] + [self.base, self.end - 1]
-                    self.peeks = sorted(set(addrs))
+                    self.peeks = sorted(set(addrs) | self.bytes_addrs | self.data_addrs)
                     pk = ' ' + ' '.join('P%d=#PEEK%s;' % (a, rng.choice((str(a), '(%d)' % a, '($%04X)' % a))) for a in self.peeks)
                 res.append('; Entry %d%s' % (v, pk))
                 if rng.random() < 0.2:
@@ -555,6 +574,10 @@ class G:
                 if ins['comment']:
                     line = line.ljust(24) + ' ; ' + rng.choice(('Comment', 'Refers to 12345', 'x', 'Multi', 'end'))
                 res.append(line)
+                if ins['comment'] and rng.random() < 0.12:
+                    # instruction comment continuation line(s): no instruction for either tool
+                    for _ in range(rng.randrange(1, 3)):
+                        res.append(' ' * rng.choice((1, 7, 25)) + '; ' + rng.choice(('continued', 'see 32768', 'LD A,1 ; "x"', '$8000')))
         return '\n'.join(res) + '\n'
 
 
@@ -988,6 +1011,11 @@ def judge(res, mode, extra, g=None):
         return f'asm-crash-{mode}', 'skool2asm crashed: ' + res['asm_out'][:160]
     if res['bin_status'] == 'crash':
         return f'bin-crash-{mode}', 'skool2bin crashed: ' + str(res['bin'])[:160]
+    if res['asm_status'] == 'ok' and res['bin_status'] == 'error' and not res['asm_errors']:
+        # skool2asm converted the file and its output assembles, but skool2bin produces no image at all
+        return f'bin-rejects-{mode}', 'skool2bin rejects a file whose skool2asm output assembles: ' + str(res['bin'])[:160]
+    if res['asm_status'] == 'error' and res['bin_status'] == 'ok':
+        return f'asm-rejects-{mode}', 'skool2asm rejects a file that skool2bin converts: ' + res['asm_out'][:160]
     if res['asm_status'] != 'ok' or res['bin_status'] != 'ok':
         return None
     if res['asm_errors']:
@@ -1070,6 +1098,116 @@ PROBES = [
 ]
 
 
+# ---------------------------------------------------------------------------------------------
+# directed deterministic files (mutation sweep): input classes the random stream reaches too rarely
+# ---------------------------------------------------------------------------------------------
+DIRECTED = [
+    # strings whose bytes a case conversion / the -u fix-up of IXH..IYL would change; string content that looks like numbers
+    ('strings-case', """@start
+@org
+; Data P40000=#PEEK40000; P40002=#PEEK(40002); P40005=#PEEK40005; P40012=#PEEK40012; P40020=#PEEK40020; P40029=#PEEK40029;
+@label=TEXT
+t40000 DEFM "IXH"
+ 40003 DEFM "iyl",1
+ 40007 DEFB "IYL ixh"
+ 40014 DEFB 1,"Ld A,ixH",$ff
+ 40024 defm "IXl",%101,"$ff 255"
+ 40035 DEFW "I"+256*"X",40000
+ 40039 DEFS 3,"H"
+@isub=DEFM "IYH:1;2"
+ 40042 DEFM "iyh:1;2"
+@isub=DEFB ";",":"    ; comment
+ 40049 DEFB 0,0
+ 40051 LD A,"h"
+ 40053 LD HL,"H"*256+"l"
+""", True),
+    # label forms: one-letter names, `*NAME`, `*`, blank
+    ('label-forms', """@start
+@org
+; Routine
+@label=Q
+c32768 LD HL,32775
+@label=*K
+ 32771 JP 32771
+@label=*
+ 32774 RET
+@label=
+*32775 JP 32768
+@label=*LongName
+ 32778 CALL 32774
+@label=V
+ 32781 DEFW 32771,32778
+
+; Routine 2
+c32785 JR 32785
+ 32787 DJNZ 32787
+*32789 JP NZ,32789
+ 32792 RET
+""", True),
+    # instruction comment continuation lines and multi-instruction comments (braces)
+    ('comment-layout', """@start
+@org
+; Routine
+@label=START
+c49152 LD A,1        ; first line
+                     ; second line: LD A,2
+ ; third line 49152
+@label=NEXT
+ 49154 LD B,2        ; {shared by
+@label=THIRD
+ 49156 LD C,3        ; three
+@isub=LD D,5
+ 49158 LD D,4        ; instructions}
+ 49160 JP 49156      ; {over two
+ 49163 JP 49158      ;
+                     ; lines}
+ 49166 RET           ; {alone}
+""", True),
+    # @bytes, @defb/@defs/@defw (with and without an address), #PEEK of every affected byte
+    ('bytes-and-data', """@start
+@org
+; Routine P49152=#PEEK49152; P49153=#PEEK49153; P49154=#PEEK49154; P49155=#PEEK49155; P60000=#PEEK60000; P60001=#PEEK60001; P60002=#PEEK60002; P60010=#PEEK60010; P60012=#PEEK60012; P60020=#PEEK60020; P60021=#PEEK60021; P60031=#PEEK60031; P60033=#PEEK60033;
+@bytes=237,76
+c49152 NEG
+@bytes=$ED,$76
+@isub=IM 1
+ 49154 IM 1
+@defb=60000:1,"a"
+@defb=3
+@defs=60010:3,$AA
+@defw=60020:$1234 ; comment
+@defb=60030:"a;b",1 ; comment
+ 49156 RET
+""", False),
+]
+DIRECTED_MODES = ('isub', 'bfix', 'rfix')
+
+
+def directed(chk, tools):
+    """Every directed file in three modes with every skool2asm option set (plus mode none)."""
+    for name, text, plain in DIRECTED:
+
+        class _G:
+            bytes_addrs = {49152, 49153, 49154, 49155} if not plain else set()
+            moving = has_overwrite = has_addressless = False
+            has_data = not plain
+        check_none_mode(chk, tools, _G, text)
+        for mode, aopts, bopts in MODES:
+            if mode not in DIRECTED_MODES:
+                continue
+            for extra in EXTRA_OPTS:
+                res = run_mode(tools, text, aopts, bopts, extra, _G.has_data)
+                chk.case('directed-' + name, ('directed', name, mode, tuple(extra)))
+                bad = judge(res, mode, extra, _G)
+                if res['asm_status'] != 'ok' or res['bin_status'] != 'ok':
+                    bad = bad or (f'directed-file-rejected-{mode}', 'a directed (valid) file is rejected: ' +
+                                  (res['asm_out'] if res['asm_status'] != 'ok' else str(res['bin']))[:160])
+                if bad:
+                    chk.violation(bad[0], f'[{name}] ' + bad[1],
+                                  {'kind': 'e2e', 'skool': text, 'mode': mode, 'aopts': aopts, 'bopts': bopts, 'extra': extra, 'data': _G.has_data,
+                                   'skip': sorted(_G.bytes_addrs), 'peek': True, 'must_convert': True})
+
+
 def run_probe(tools, key, mode, text, what):
     aopts, bopts = next((a, b) for m, a, b in MODES if m == mode)
     res = run_mode(tools, text, aopts, bopts, [])
@@ -1146,7 +1284,13 @@ def run(chk):
                 'skool2asm.main in 9 mode combinations x option sets drawn from {-D,-H,-l,-u,-c,-F}, assembled by an independent '
                 'two-pass assembler and compared byte for byte with skool2bin.main in the same mode; #PEEK probes; mode none via '
                 'the HTML-mode parser snapshot. Half of the files keep the layout fixed (all checks), half move code (references '
-                'only to labelled instructions). non-trivial = distinct (file, mode, options). Correspondence: mode tables '
+                'only to labelled instructions). Directed deterministic files (strings whose bytes a case conversion or the -u '
+                'IXH..IYL fix-up would change and strings holding : ; , inside quotes, also as @*sub operations; label forms '
+                'Q / *K / * / blank / *LongName with and without -c; comment continuation lines and multi-instruction brace '
+                'comments; @bytes and @defb/@defs/@defw with #PEEK of every affected byte) in modes isub/bfix/rfix x all 11 '
+                'option sets + mode none; a directed file must be converted by both tools. A generated file that skool2bin '
+                'rejects while skool2asm converts it into text that assembles (or vice versa) is a violation '
+                '(bin-rejects-<mode> / asm-rejects-<mode>). non-trivial = distinct (file, mode, options). Correspondence: mode tables '
                 '(all 20 mode pairs), winner selection, layout token streams (bin/asm/par/pos/pokes/spec ops), _replace_nums and '
                 'convert_case strings.')
     chk.trusted += ['hand models lean/SkoolVerif/Model/{AsmModes,AsmLayout,ReplaceNums}.lean tied by correspondence (harness/props/c04.py)',
@@ -1197,6 +1341,7 @@ def run(chk):
     snapshot_correspondence(chk, [c[0] for c in cases], snaps)
     # the property itself
     probes(chk, tools)
+    directed(chk, tools)
     e2e(chk, tools)
     chk.note('documented design limits excluded from the random stream (see assumptions): unlabelled targets after movement, '
              '#PEEK under movement / overwrite chains / address-less lines, removed lines with own directives, @keep scope')
@@ -1217,5 +1362,7 @@ def replay(chk, data):
         class _G:
             bytes_addrs = set(data.get('skip', ()))
             moving = has_overwrite = has_addressless = not data.get('peek', False)
+        if data.get('must_convert') and (res['asm_status'] != 'ok' or res['bin_status'] != 'ok'):
+            return True
         return judge(res, data['mode'], data['extra'], _G) is not None
     return False
